@@ -57,18 +57,20 @@ Print Assumptions C17_url_credentials.
    for that hop's host; and what is selected for host h was stored for host h. *)
 Theorem C17_jar_reselected : forall c q resps i s,
   nth_error (sents (run c q resps)) i = Some s ->
-  s_jar s = jar_filter (jar_after (q_jar q) (sents (run c q resps)) resps i) (o_host (s_org s)).
+  s_jar s = jar_filter (jar_after (q_jar q) (sents (run c q resps)) resps i) (o_host (s_org s)) (s_path s).
 Proof. exact jar_reselected. Qed.
 Print Assumptions C17_jar_reselected.
 
-Theorem C17_jar_selection_by_host : forall j h n v, In (n, v) (jar_filter j h) -> In (h, n, v) j.
+Theorem C17_jar_selection_by_host : forall j h path n v, In (n, v) (jar_filter j h path) ->
+  exists sc, In (h, n, v, sc) j /\ scope_matches sc path = true.
 Proof. exact jar_filter_In. Qed.
 Print Assumptions C17_jar_selection_by_host.
 
 (* Method / body table between two consecutive requests: the response in between is a redirect
    status and redirects are allowed; 303 (not HEAD) and 301/302 on POST turn the request into a GET
    without body (and without the caller's Content-Length); every other case repeats method and
-   body, and is only followed when the body can be replayed. *)
+   body, and is only followed when the body can be replayed (or was not sent at all: the response
+   came while the client was still waiting for `100 Continue`). *)
 Theorem C17_method_body_table : forall c q resps i s s',
   nth_error (sents (run c q resps)) i = Some s ->
   nth_error (sents (run c q resps)) (S i) = Some s' ->
@@ -76,7 +78,8 @@ Theorem C17_method_body_table : forall c q resps i s s',
     In (rs_status r) [301; 302; 303; 307; 308] /\ c_allow c = true /\
     if doc_switch_to_get (rs_status r) (s_meth s)
     then s_meth s' = MGet /\ s_body s' = BNone /\ s_clen s' = false
-    else s_meth s' = s_meth s /\ s_body s' = s_body s /\ s_clen s' = s_clen s /\ consumed_after_send (s_body s) = false.
+    else s_meth s' = s_meth s /\ s_body s' = s_body s /\ s_clen s' = s_clen s /\
+         (consumed_after_send (s_body s) = false \/ rs_unsent r = true).
 Proof. exact table. Qed.
 Print Assumptions C17_method_body_table.
 
@@ -89,8 +92,8 @@ Proof.
   exists {| c_max := 0; c_allow := true |},
          {| q_meth := MGet; q_url := {| u_org := {| o_sch := 0; o_host := 0; o_port := None |}; u_cred := None; u_path := 0 |};
             q_auth := None; q_cookie := None; q_pauth := None; q_reqck := None; q_body := BNone; q_clen := false; q_jar := [] |},
-         [ {| rs_status := 302; rs_setcookie := []; rs_loc := LRel 1 |};
-           {| rs_status := 302; rs_setcookie := []; rs_loc := LRel 2 |} ].
+         [ {| rs_status := 302; rs_setcookie := []; rs_loc := LRel 1; rs_unsent := false |};
+           {| rs_status := 302; rs_setcookie := []; rs_loc := LRel 2; rs_unsent := false |} ].
   vm_compute. reflexivity.
 Qed.
 Print Assumptions C17_terminates_refuted.
@@ -166,11 +169,12 @@ Print Assumptions C17_generated_schemes_are_http.
 (* ---- non-vacuity ------------------------------------------------------------------------------ *)
 
 (* four requests; the caller's secrets on hops 0 and 1 only; u7's credentials on hop 2 only;
-   POST+body kept by 307, dropped by 302; back on A nothing is resurrected; jar cookies per host *)
+   POST+body kept by 307, dropped by 302; back on A nothing is resurrected; jar cookies per host, and the
+   cookie scoped to path 1 (name 8) on the hop to /p1 only *)
 Example C17_example_chain :
   map (fun s => (s_org s, s_meth s, s_body s, s_auth s, carries_caller_secretb s, cookie_pairs s)) (sents (run ex_c ex_q ex_resps)) =
   [ (ex_A, MPost, BReplay 1, Some (ACaller 1), true,  [(2, 201); (3, 301); (1, 101)]);
-    (ex_A, MPost, BReplay 1, Some (ACaller 1), true,  [(2, 201); (3, 301); (5, 401); (1, 101)]);
+    (ex_A, MPost, BReplay 1, Some (ACaller 1), true,  [(2, 201); (3, 301); (8, 308); (5, 401); (1, 101)]);
     (ex_B, MGet,  BNone,     Some (AUrl 7),    false, [(4, 302)]);
     (ex_A, MGet,  BNone,     None,             false, [(3, 301); (5, 401)]) ]
   /\ disps (run ex_c ex_q ex_resps) = [DReleased; DReleased; DReleased; DReturned]
@@ -187,11 +191,11 @@ Example C17_example_hypotheses :
        = Failed ETooManyRedirects [(307, ex_A, 0); (302, ex_A, 1)]
   /\ length (sents (run {| c_max := 2; c_allow := true |} ex_q ex_resps)) = 2%nat
   /\ result (run ex_c ex_q [ {| rs_status := 302; rs_setcookie := [];
-                                rs_loc := LAbs {| u_org := {| o_sch := 4; o_host := 1; o_port := None |}; u_cred := None; u_path := 1 |} |} ])
+                                rs_loc := LAbs {| u_org := {| o_sch := 4; o_host := 1; o_port := None |}; u_cred := None; u_path := 1 |}; rs_unsent := false |} ])
        = Failed ENonHttpRedirect [(302, ex_A, 0)]
   /\ result (run ex_c {| q_meth := MPut; q_url := q_url ex_q; q_auth := None; q_cookie := None; q_pauth := None; q_reqck := None;
                          q_body := BOnce 4; q_clen := false; q_jar := [] |}
-                 [ {| rs_status := 307; rs_setcookie := []; rs_loc := LRel 1 |} ])
+                 [ {| rs_status := 307; rs_setcookie := []; rs_loc := LRel 1; rs_unsent := false |} ])
        = Failed EPayloadConsumed [(307, ex_A, 0)].
 Proof. vm_compute. repeat split; eexists; split; reflexivity. Qed.
 Print Assumptions C17_example_hypotheses.
